@@ -25,6 +25,7 @@ from harness.core import (model_check, read_events, require, run_driver, seed, s
 TSPEC = "C19_CalcTrace"
 RAND_BASE, EX_BASE, SELF_BASE = 10 ** 6, 2 * 10 ** 6, 10 ** 7
 NORM_CLASS = "normalize:one-pass-is-not-a-fixed-point"
+NORM_CLASS2 = "normalize:second-pass-is-not-a-fixed-point-either"
 
 MUTANTS = [
     # the reference substitution forgets the factor 1 / a of du = a dx
@@ -110,10 +111,10 @@ def run(rep, tier):
                 "Simplify, linear Substitution (%s slopes/offsets), IntegrationByParts, SplitRegion, DerivativeSimplify, SummationSimplify; every "
                 "transition is replayed through the real Rule.eval. Plus %d seeded random calculations (0-2 parameters with conditions, rational "
                 "coefficients, rational functions, nested integrals, EvalAt, sums, indefinite integrals; 1-3 chained steps of 20 rules with "
-                "generated parameters), 36 directed side-condition cases, random expressions of all forms for print/parse and normalisation, "
+                "generated parameters), about 60 directed side-condition cases, random expressions of all forms for print/parse and normalisation, "
                 "and every recorded step of the example files. Non-trivial = the value clause compared both sides at one admissible grid "
                 "point at least (rule / norm events) or the structural clause was evaluated (pp / norm events); distinct by event content."
-                % (("2", "2", "4", 400) if quick else ("3", "6", "6", 15000)))
+                % (("2", "2", "2", 300) if quick else ("3", "6", "6", 15000)))
     rep.assumptions = [
         "RESTRICTED CLAIM: value preservation is judged only on the exactly evaluable fragment: rational constants, variables, + - * /, "
         "integer powers, abs, definite and indefinite integrals whose integrand is syntactically a polynomial in the integration variable "
@@ -125,7 +126,7 @@ def run(rep, tier):
         "antiderivatives / Skolem constants: equality up to an additive constant that may depend on every variable but the integration variable",
         "rules that use lemmas, definitions, induction hypotheses, earlier substitutions, or transform equations (ApplyEquation, ExpandDefinition, "
         "FoldDefinition, ApplyInductHyp, ReplaceSubstitution, IntegrateByEquation, *Equation rules) are not judged by value",
-        "interval bounds (integral/interval.py) are not examined; print/parse identifies the numerals -3 / neg(3), 3/4 / (3)/(4), -oo / neg(oo)",
+        "an EvalAt whose body contains a derivative with respect to the EvalAt variable, and expressions in which a binder re-binds the variable of an enclosing binder, are not examined by value; interval bounds (integral/interval.py) are not examined; print/parse identifies the numerals -3 / neg(3), 3/4 / (3)/(4), -oo / neg(oo)",
         "TLC/SANY, lib/Rat.tla, the structural codec in harness/drivers/c19.py, CPython"]
     vec = wd / "vectors.ndjson"
     ev_rand, ev_ex, ev_rep = wd / "rand.ndjson", wd / "examples.ndjson", wd / "replay.ndjson"
@@ -135,6 +136,8 @@ def run(rep, tier):
     def keyf(e):
         if e.get("kind") == "norm" and cls.get(e["tid"]) == "second-pass-stable":
             return NORM_CLASS
+        if e.get("kind") == "norm" and cls.get(e["tid"]) == "second-pass-unstable":
+            return NORM_CLASS2
         return e.get("key")
 
     def part(v, lo, hi, n):
@@ -147,7 +150,7 @@ def run(rep, tier):
     def code_driven():
         """seeded random inputs and the example files: drivers, then one validation run (while TLC explores C19_Calc)"""
         with ThreadPoolExecutor(max_workers=2) as ex2:
-            f1 = ex2.submit(run_driver, "c19", ["rand", ev_rand, 400 if quick else 15000, seed()], timeout=7200)
+            f1 = ex2.submit(run_driver, "c19", ["rand", ev_rand, 300 if quick else 15000, seed()], timeout=7200)
             f2 = ex2.submit(run_driver, "c19", ["examples", ev_ex], timeout=7200)
             f1.result()
             f2.result()
@@ -158,7 +161,7 @@ def run(rep, tier):
         for e in evs3:
             e["tid"] += EX_BASE
         write_events(wd / "code_driven.ndjson", evs2 + evs3)
-        return evs2, evs3, validate_trace(TSPEC, wd / "code_driven.ndjson", wd=wd / "tv_code", nchunks=1 if quick else 6)
+        return evs2, evs3, validate_trace(TSPEC, wd / "code_driven.ndjson", wd=wd / "tv_code", nchunks=1 if quick else 2)
 
     with ThreadPoolExecutor(max_workers=3) as ex:
         f_mc = ex.submit(model_check, "C19_Calc", cfg, wd=wd / "mc", workers=1, env={"VECTOR_FILE": vec}, timeout=7200)
@@ -182,7 +185,7 @@ def run(rep, tier):
         bad = _corrupted(evs1)
         require(len({c for _, c in bad}) == 5 and len(bad) >= 12, "C19: self-test events could not be built (%d)" % len(bad))
         write_events(wd / "spec_driven.ndjson", evs1 + [c for c, _ in bad])
-        va = validate_trace(TSPEC, wd / "spec_driven.ndjson", wd=wd / "tv_spec", nchunks=1 if quick else 6)
+        va = validate_trace(TSPEC, wd / "spec_driven.ndjson", wd=wd / "tv_spec", nchunks=1 if quick else 3)
         evs2, evs3, vb = f_code.result()
         f_mut.result()
     cls.update({i["tid"]: i["cls"] for i in va["info"] + vb["info"]})
@@ -214,7 +217,7 @@ def run(rep, tier):
                                   "result differs from the stored one (divergence)": len(v3["divergences"])}
     tr = rep.notes["traces"]
     require(tr["replay"]["nontrivial"] >= (5000 if quick else 40000), "C19: too few examined replayed steps (vacuity guard)")
-    require(tr["rand"]["nontrivial"] >= (800 if quick else 20000), "C19: too few examined random steps (vacuity guard)")
+    require(tr["rand"]["nontrivial"] >= (700 if quick else 20000), "C19: too few examined random steps (vacuity guard)")
     require(len(exs) >= 1000 and rep.notes["example_steps"]["examined by value"] >= 15, "C19: example files not replayed (vacuity guard)")
     for b in ("Linearity", "DefiniteIntegralIdentity", "Substitution", "IntegrationByParts", "SplitRegion", "ExpandPolynomial",
               "DerivativeSimplify", "FullSimplify", "Simplify"):
